@@ -56,6 +56,9 @@ SPEC = dict(
              label="YarnTrace: longer assignment histories with host writes (recording storer)"),
         dict(family="varsloop", n=(60, 600), paths=(3, 5), calls=30, hostsets=True,
              label="YarnTrace: lines and assignments reached again after host writes"),
+        # variables that did not exist at the restored node entry do not exist after RestoreAt (unknown again, no type)
+        dict(family="varsloop", n=(30, 300), paths=(3, 5), calls=40, mode="snap",
+             label="YarnTrace: assignment histories with Snapshot / RestoreAt interleaved (three runners)"),
         dict(family="vars", storer="inmemory", n=(60, 300), paths=(3, 5), calls=14, hostsets=True,
              label="YarnTrace: host writes through a host-supplied variable.InMemoryStorer")],
     nontrivial=lambda c: sum(1 for b in c["bodies"] for s in b if s["k"] == "set" and s["op"] != "=") >= 2,
